@@ -429,6 +429,17 @@ func genC22(r *simrt.RNG, tier string) *simrt.Scenario {
 		n = r.Range(40, 90)
 	}
 	for i := 0; i < n; i++ {
+		if r.Chance(1, 12) {
+			// an honest transaction comes, is removed from the pool unmined, and its
+			// body comes back under a forged signature
+			save := g.pDefect
+			g.pDefect = 0
+			t := g.txOp()
+			g.pDefect = save
+			ref := int64(-1) // the object registered last
+			sc.Ops = append(sc.Ops, t, simrt.Op{K: "rm", Sub: []simrt.Op{{K: "ref", I: []int64{ref}}}}, simrt.Op{K: "forge", I: []int64{ref, int64(r.Intn(NAcc))}})
+			continue
+		}
 		switch r.Weighted(46, 14, 9, 6, 7, 3, 4, 2, 2, 4, 3) {
 		case 0:
 			sc.Ops = append(sc.Ops, g.txOp())
